@@ -4,7 +4,7 @@ From Coq Require Import ZArith List Bool Permutation Sorting.Sorted.
 From VV Require Import gen.GenNumeric model.Alloc proofs.AllocProofs proofs.AllocGreedyProofs proofs.AllocLinearProofs
   proofs.AllocHillProofs proofs.AllocHillNbrProofs proofs.AllocHillSearchProofs proofs.AllocHillPeakProofs
   proofs.AllocHillTermProofs proofs.AllocHillOutcomeProofs proofs.AllocHillIndexProofs proofs.AllocHillWalkProofs
-  proofs.AllocDispatchProofs proofs.AllocExamples.
+  proofs.AllocAlignProofs proofs.AllocDispatchProofs proofs.AllocExamples.
 Import ListNotations.
 Open Scope Z_scope.
 
@@ -223,6 +223,37 @@ Theorem allocate_ok : forall (S : Type) (next : S -> Z * S) tag A lrs mi limit s
   end.
 Proof. exact allocate_ok_lemma. Qed.
 
+(* ------------------------------ the alignment of a live range ------------------------------ *)
+(* LiveRange.__init__ + set_alignment: the stored alignment is the largest request, it is one of the requests ... *)
+Theorem range_alignment_is_strictest : forall later first,
+  first <= range_alignment first later /\
+  (forall a, In a later -> a <= range_alignment first later) /\
+  In (range_alignment first later) (first :: later).
+Proof. exact range_alignment_spec. Qed.
+
+(* ... and, when the requests form a divisibility chain (powers of two do: requests_pow2_chain), every request divides it *)
+Theorem range_alignment_divides_every_request : forall first later q,
+  div_chain (first :: later) -> In q (first :: later) -> (q | range_alignment first later).
+Proof. exact range_alignment_divides. Qed.
+
+Theorem requests_pow2_chain : forall l, (forall x, In x l -> pow2 x) -> div_chain l.
+Proof. exact pow2_chain. Qed.
+
+(* LiveRangeGraph.get_or_create_range over a sequence of (equivalence id, alignment) requests: one range per id, and
+   its get_alignment() is a multiple of (and at least) every alignment requested for that id *)
+Theorem graph_alignment_honours_requests : forall requests k q,
+  In (k, q) requests -> div_chain (requests_of k requests) ->
+  exists a, In (k, a) (range_alignments requests) /\ (q | a) /\ q <= a.
+Proof. exact graph_alignment_divides. Qed.
+
+(* allocate_ok lifted: through the dispatcher, every address honours every alignment ever requested for its range *)
+Theorem allocate_honours_every_request : forall (S : Type) (next : S -> Z * S) tag A lrs mi limit s,
+  0 < A -> Forall (d_wf A) lrs -> footprint_bound lrs <= 2 ^ 63 -> tag = 1 \/ tag = 2 \/ tag = 3 ->
+  forall r a, In (r, a) (result_pairs lrs (allocate S next tag A lrs mi limit s)) ->
+  forall first later q,
+    lr_align r = range_alignment first later -> div_chain (first :: later) -> In q (first :: later) -> (q | a).
+Proof. exact allocate_honours_every_request_lemma. Qed.
+
 Print Assumptions greedy_no_overlap.
 Print Assumptions greedy_no_overlap_any_order.
 Print Assumptions greedy_aligned.
@@ -243,4 +274,8 @@ Print Assumptions hillclimb_search_iterations_bound.
 Print Assumptions hillclimb_terminates.
 Print Assumptions hillclimb_randint_old_code_refuted.
 Print Assumptions allocate_ok.
+Print Assumptions range_alignment_is_strictest.
+Print Assumptions range_alignment_divides_every_request.
+Print Assumptions graph_alignment_honours_requests.
+Print Assumptions allocate_honours_every_request.
 Print Assumptions gen_round_up_is_model.
